@@ -41,9 +41,18 @@ def expand(job):
                                                  R.diy(m, y) - 1, rnd.randrange(R.diy(m, y))])
             rep = rnd.choice(["cal", "ord", "week"])
             yy, a, b = R.date_of(m, rep, n)
-            yield {"kind": "conv", "mode": sp,
-                   "p": tp_rec(rep, yy, a, b, sod=rnd.choice([0, 1, 43200, 86399, 86400]),
-                               zh=rnd.choice([0, 0, 5, -11]), zm=0)}
+            case = {"kind": "conv", "mode": sp,
+                    "p": tp_rec(rep, yy, a, b, sod=rnd.choice([0, 1, 43200, 86399, 86400]),
+                                zh=rnd.choice([0, 0, 5, -11]), zm=0)}
+            if rnd.random() < 0.2 and rep in ("week", "cal"):
+                # first week / first weekday / first month / first day of the month: fields a caller may leave to their defaults
+                if rep == "week":
+                    case["p"].update(a=rnd.choice([1, case["p"]["a"]]), b=rnd.choice([1, case["p"]["b"]]))
+                    case["defaults"] = rnd.choice([["week_of_year"], ["day_of_week"]])      # (with both left out it is a calendar date)
+                else:
+                    case["p"].update(a=rnd.choice([1, case["p"]["a"]]), b=1)
+                    case["defaults"] = rnd.choice([["day_of_month"], ["month_of_year", "day_of_month"]])
+            yield case
     else:
         raise ValueError(k)
 
@@ -91,6 +100,17 @@ def run_case(case, rec, cid):
     if k == "conv":
         def f():
             p = mk_tp(case["p"])
+            if case.get("defaults"):
+                # the same point built with the fields that equal their documented defaults LEFT OUT (week 1, weekday 1, month 1,
+                # day 1): it must be the very same point
+                from harness.common import TimePoint as _TP, tp_kwargs
+                kw = tp_kwargs(case["p"])
+                for name, dflt in (("week_of_year", 1), ("day_of_week", 1), ("month_of_year", 1), ("day_of_month", 1)):
+                    if kw.get(name) == dflt and name in case["defaults"]:
+                        del kw[name]
+                p2 = _TP(**kw)
+                if not (p2 == p and proj_tp(p2) == proj_tp(p)):
+                    raise AssertionError("constructor defaults give another point")
             gc = p.get_calendar_date()
             # the civil day as the formatting layer sees it (whatever representation p is held in)
             sf = [int(p.strftime("%Y"))] + [int(x) for x in p.strftime("%m %d %j").split()] if 0 <= gc[0] <= 9999 and 0 <= p.year <= 9999 else []
